@@ -173,4 +173,93 @@ def normalise : List Tok → List Tok
       | r => .text s :: r
   | t :: rest => t :: normalise rest
 
+/-! ## the terminal's reading of the character stream
+
+`tokenize` is what a terminal's parser does with the characters it receives, restricted to the two
+sequences this property is about (everything else is ordinary text, one character at a time):
+
+* `ESC [` *params* `m` with *params* made of decimal digits and `;` only — an SGR sequence; the
+  parameter string is split at `;`, an empty parameter is `0` (ECMA-48 5.4.2), an empty string is no
+  parameter at all;
+* `ESC ] 8 ;` *params* `;` *uri* terminated by `ESC \` (ST) or BEL — an OSC 8 hyperlink; *params*
+  ends at the first `;`, neither part contains ESC or BEL.
+
+An ESC that does not start one of these is passed on as a text character.  Written independently of
+`serialise`; `Lemmas/AnsiWire.lean` proves that it reads back what `serialise` writes. -/
+
+def BEL : Char := Char.ofNat 7
+
+/-- the longest prefix satisfying `p`, and the rest -/
+def takeWhileP (p : Char → Bool) : List Char → List Char × List Char
+  | [] => ([], [])
+  | c :: cs => if p c then ((c :: (takeWhileP p cs).1), (takeWhileP p cs).2) else ([], c :: cs)
+
+/-- split at every `;` (like `str.split(";")`: n separators give n+1 fields) -/
+def splitSemi : List Char → List (List Char)
+  | [] => [[]]
+  | c :: cs =>
+    if c = ';' then [] :: splitSemi cs
+    else match splitSemi cs with
+      | h :: t => (c :: h) :: t
+      | [] => [[c]]
+
+/-- a decimal parameter; the empty string is the default value 0 -/
+def parseParam (ds : List Char) : Nat := Nat.ofDigitChars 10 ds 0
+
+def parseParams (s : List Char) : List Nat := if s.isEmpty then [] else (splitSemi s).map parseParam
+
+def isParamChar (c : Char) : Bool := c.isDigit || c == ';'
+
+/-- after `ESC [`: the parameters and what follows the final `m` -/
+def scanSgr (r : List Char) : Option (List Nat × List Char) :=
+  match (takeWhileP isParamChar r).2 with
+  | c :: r' => if c = 'm' then some (parseParams (takeWhileP isParamChar r).1, r') else none
+  | [] => none
+
+/-- after `ESC ]`: the hyperlink token and what follows its terminator -/
+def scanOsc8 (r : List Char) : Option (Tok × List Char) :=
+  match r with
+  | c1 :: c2 :: r1 =>
+    if c1 = '8' ∧ c2 = ';' then
+      let p := takeWhileP (fun c => c != ';' && c != ESC && c != BEL) r1
+      match p.2 with
+      | c3 :: r2 =>
+        if c3 = ';' then
+          let u := takeWhileP (fun c => c != ESC && c != BEL) r2
+          match u.2 with
+          | c4 :: r3 =>
+            if c4 = BEL then some (.osc8 p.1 u.1, r3)
+            else match r3 with
+              | c5 :: r4 => if c5 = '\\' then some (.osc8 p.1 u.1, r4) else none
+              | [] => none
+          | [] => none
+        else none
+      | [] => none
+    else none
+  | _ => none
+
+/-- one token per step; every text character on its own (merged by `normalise` afterwards).
+`fuel` bounds the number of steps; the length of the input is always enough. -/
+def scan : Nat → List Char → List Tok
+  | 0, _ => []
+  | _, [] => []
+  | fuel + 1, c :: cs =>
+    if c = ESC then
+      match cs with
+      | k :: r =>
+        if k = '[' then
+          match scanSgr r with
+          | some (ps, r') => .sgr ps :: scan fuel r'
+          | none => .text [c] :: scan fuel cs
+        else if k = ']' then
+          match scanOsc8 r with
+          | some (t, r') => t :: scan fuel r'
+          | none => .text [c] :: scan fuel cs
+        else .text [c] :: scan fuel cs
+      | [] => [.text [c]]
+    else .text [c] :: scan fuel cs
+
+/-- The terminal's reading of a character stream. -/
+def tokenize (s : List Char) : List Tok := normalise (scan s.length s)
+
 end RichModel.AnsiTerm
